@@ -63,6 +63,10 @@ class RmsNormFusion(pattern.RewriteRuleClassBase):
         epsilon_value = _ir_utils.get_singleton_value(epsilon)
         if not isinstance(epsilon_value, float):  # TODO: support other types
             return check_result.fail("Epsilon is not a float value.", epsilon)
+        epsilon_array = _ir_utils.get_numpy_value(epsilon)
+        if x.shape is not None and epsilon_array.ndim > x.shape.rank():
+            # Add would broadcast the result to epsilon's rank; the fused op cannot.
+            return check_result.fail("Epsilon has a higher rank than the input.", epsilon)
         if x.dtype not in float_types:
             return check_result.fail("Input is not a float type.", x)
         if scale.dtype not in float_types:
